@@ -1022,6 +1022,12 @@ func runSync(name, runFn string, withF7 bool, tier string, seed uint64, out stri
 		term, desc = runCloseDuringDial(stats, true)
 		desc["index"] = -11
 		cs.add(term, desc, "sync-run", true)
+		term, desc = runFailedNoWaitWrite(stats, 1)
+		desc["index"] = -12
+		cs.add(term, desc, "sync-run", true)
+		term, desc = runFailedNoWaitWrite(stats, 2)
+		desc["index"] = -13
+		cs.add(term, desc, "sync-run", true)
 	}
 	if withF7 {
 		var term string
@@ -1917,3 +1923,229 @@ func runSync13(tier string, seed uint64, out string) error {
 }
 
 func init() { runners["SYNC13"] = runSync13 }
+
+// runCloseDuringSave (C14 "a persisted publish that returns an error was not enqueued"): Close
+// lands while a persisted publish is inside Persistence.Save, that is after its context check
+// and before its write attempt. Whatever the call returns then: when it is an error, the
+// record must not stay behind (observation kind 9 = publish records left in the Persistence
+// after such a call returned an error).
+func runCloseDuringSave(stats map[string]int, level int) (string, map[string]any) {
+	waitQuiet()
+	rec := &syncRec{}
+	mqtt.VerifEvent = rec.hook
+	defer func() { mqtt.VerifEvent = defaultHook }()
+	store := newSimStore(&evlog{})
+	saveGate, saveEntered := make(chan struct{}), make(chan struct{})
+	var once sync.Once
+	store.before = func(kind string, key uint) {
+		if kind == "save" && key >= 0x8000 {
+			once.Do(func() {
+				close(saveEntered)
+				<-saveGate
+			})
+		}
+	}
+	dialer := &simDialer{log: store.log, onDial: func(id int) (*simConn, bool) { return nil, false }}
+	cfg := mqtt.Config{Dialer: dialer.dial, PauseTimeout: time.Minute, AtLeastOnceMax: 4, ExactlyOnceMax: 4}
+	client, err := mqtt.InitSession("cds", store, &cfg)
+	if err != nil {
+		panic(err)
+	}
+	s := &schedCalls{}
+	const limit = 5 * time.Second
+	label := fmt.Sprintf("Close while a persisted publish (level %d) is inside Persistence.Save", level)
+	var pubErr error
+	waitP := s.start(2, func() error {
+		if level == 1 {
+			_, pubErr = client.PublishAtLeastOnce([]byte("x"), "cds/t")
+		} else {
+			_, pubErr = client.PublishExactlyOnce([]byte("x"), "cds/t")
+		}
+		return pubErr
+	})
+	if !waitCh(saveEntered, limit) {
+		close(saveGate)
+		waitP(limit)
+		return renderSched(rec, s, label+" [Save not reached]")
+	}
+	s.start(3, client.Close)(limit)
+	close(saveGate)
+	if waitP(limit) && pubErr != nil {
+		left := 0
+		for k := range store.snapshot() {
+			if k >= 0x8000 && k < 0x10000 {
+				left++
+			}
+		}
+		s.mu.Lock()
+		s.calls = append(s.calls, apiObs{0, 9, uint64(left), false})
+		s.mu.Unlock()
+	}
+	// one goroutine reads until the client reports its end
+	done := make(chan struct{})
+	go func() {
+		defer close(done)
+		g := gid()
+		for i := 0; i < 3; i++ {
+			err := safelyNow(func() error { _, _, err := client.ReadSlices(); return err })
+			s.note(g, 0, err, true)
+			if errors.Is(err, mqtt.ErrClosed) {
+				return
+			}
+		}
+	}()
+	if !waitCh(done, limit) {
+		s.note(0, 0, errHung, true)
+	}
+	return renderSched(rec, s, label)
+}
+
+func runSync14(tier string, seed uint64, out string) error {
+	cs := newCaseSet("SYNC14", "SyncCheck", "synccase", "sync_run_c14")
+	stats := map[string]int{}
+	reps := 1
+	if tier == "thorough" {
+		reps = 10
+	}
+	for rep := 0; rep < reps; rep++ {
+		for i, level := range []int{1, 2} {
+			term, desc := runCloseDuringSave(stats, level)
+			desc["index"] = -1 - i
+			cs.add(term, desc, "sync-run", true)
+		}
+	}
+	for k, v := range stats {
+		cs.dist[k] = v
+	}
+	return cs.write(out, 5)
+}
+
+func init() { runners["SYNC14"] = runSync14 }
+
+// runFailedNoWaitWrite (C10 "every placement of a write failure by any other goroutine ...
+// persisted publish", C01 "after every connection loss written again on the next connection"):
+// the client is online and the broker is silent, so the read routine is parked in conn.Read
+// without a deadline; a persisted publish then meets a write error that is not a close-type
+// error. Nothing but the writer can wake the reader: the connection has to be closed. The
+// read routine must come back, redial, and the publish must go out on the new connection
+// (observation kind 12 = PUBLISH packets seen on the second connection).
+func runFailedNoWaitWrite(stats map[string]int, level int) (string, map[string]any) {
+	waitQuiet()
+	rec := &syncRec{}
+	mqtt.VerifEvent = rec.hook
+	defer func() { mqtt.VerifEvent = defaultHook }()
+	log := &evlog{}
+	store := newSimStore(log)
+	var resent atomic.Int64
+	dialer := &simDialer{log: log}
+	dialer.onDial = func(id int) (*simConn, bool) {
+		c := &simConn{closedCh: make(chan struct{})}
+		sent := false
+		c.onRead = func(c *simConn, armed bool, want int) readAns {
+			if !sent {
+				sent = true
+				return readAns{kind: rData, data: []byte{0x20, 2, 0, 0}}
+			}
+			c.mu.Unlock()
+			<-c.closedCh // the broker says nothing
+			c.mu.Lock()
+			return readAns{kind: rClosed}
+		}
+		c.onWrite = func(c *simConn, p []byte) writeAns {
+			if p[0]>>4 == 3 {
+				if id == 0 {
+					return writeAns{kind: wHard, n: 0} // e.g. EPIPE, ENOBUFS: not a close-type error
+				}
+				resent.Add(1)
+			}
+			return writeAns{kind: wOk, n: len(p)}
+		}
+		return c, true
+	}
+	cfg := mqtt.Config{Dialer: dialer.dial, AtLeastOnceMax: 4, ExactlyOnceMax: 4}
+	client, err := mqtt.InitSession("fnw", store, &cfg)
+	if err != nil {
+		panic(err)
+	}
+	s := &schedCalls{}
+	const limit = 3 * time.Second
+	label := fmt.Sprintf("a persisted publish (level %d) meets a hard write error while the read routine is parked in a silent connection", level)
+	rres := make(chan error, 4)
+	next := make(chan struct{}, 4)
+	rg := make(chan int, 1)
+	readerExited := make(chan struct{})
+	go func() {
+		defer close(readerExited)
+		rg <- gid()
+		for range next {
+			rres <- safelyNow(func() error { _, _, err := client.ReadSlices(); return err })
+		}
+		drainClosed(client)
+	}()
+	g := <-rg
+	waitR := func() bool {
+		select {
+		case err := <-rres:
+			s.note(g, 0, err, false)
+			return true
+		case <-time.After(limit):
+			s.note(g, 0, errHung, false)
+			stats["fnw:hung"]++
+			return false
+		}
+	}
+	next <- struct{}{}
+	ok := waitCh(client.Online(), limit)
+	if ok {
+		waitP := s.start(2, func() error {
+			var err error
+			if level == 1 {
+				_, err = client.PublishAtLeastOnce([]byte("x"), "fnw/t")
+			} else {
+				_, err = client.PublishExactlyOnce([]byte("x"), "fnw/t")
+			}
+			return err
+		})
+		waitP(limit)
+		// the reader is woken by the closed connection, redials within the same ReadSlices call
+		// (closed-connection errors are followed by a connect at once) and resends
+		for i := 0; i < 300 && resent.Load() == 0; i++ {
+			time.Sleep(10 * time.Millisecond)
+		}
+		if resent.Load() == 0 {
+			stats["fnw:not-resent"]++
+		}
+		s.mu.Lock()
+		s.calls = append(s.calls, apiObs{0, 12, uint64(resent.Load()), false})
+		s.mu.Unlock()
+	}
+	client.Close()
+	if ok {
+		waitR()
+	}
+	close(next)
+	waitCh(readerExited, limit)
+	return renderSched(rec, s, label)
+}
+
+func runSync01(tier string, seed uint64, out string) error {
+	cs := newCaseSet("SYNC01", "SyncCheck", "synccase", "sync_run_c01")
+	stats := map[string]int{}
+	reps := 1
+	if tier == "thorough" {
+		reps = 10
+	}
+	for rep := 0; rep < reps; rep++ {
+		for i, level := range []int{1, 2} {
+			term, desc := runFailedNoWaitWrite(stats, level)
+			desc["index"] = -1 - i
+			cs.add(term, desc, "sync-run", true)
+		}
+	}
+	for k, v := range stats {
+		cs.dist[k] = v
+	}
+	return cs.write(out, 5)
+}
+
+func init() { runners["SYNC01"] = runSync01 }
